@@ -2,8 +2,12 @@
 
 Invariant `t.__wbs is X  <=>  t reachable from X's root task`, inductive over the writers of __parent/__children (C01.own)
 and of __wbs.  Decided: writers of the owner pointer, recursion of attach/detach over ALL children, pairing of every
-non-None parent store with attach and of every list removal with detach, the same-owner guards, re-rooting, unlinking
-through the raw parent field.  Full reachability equivalence relies on the C01 invariant.
+non-None parent store with attach and of every list removal with detach (the snapshot of the old children may be taken by a
+private helper), the same-owner guards, re-rooting, unlinking through the raw parent field, a parent store outside the parent
+setter (no unlink from the previous parent), in-place list operations that keep only a subset of the list, a memoised
+all_children with incomplete invalidation (X.tasks keeps listing removed tasks), removal paths delegating to the children
+assignment (also through private helpers).  Full reachability equivalence relies on the C01 invariant.
+Not decided: a memoised all_children whose invalidation looks complete (UNDECIDED).
 """
 from __future__ import annotations
 
@@ -59,6 +63,21 @@ def check(ctx):
                "nothing rebinds it (otherwise a list obtained earlier goes stale and a later remove()/append() through it re-attaches or "
                "drops tasks)", floor=4)
     ctx.guarded(o, lambda o: T.shared_list(ctx, o))
+
+    o = ctx.ob('reparent_unlinks_old_parent', 'R4',
+               "a task that gets a (non-None) raw parent is first unlinked from the child list of its previous raw parent: this happens "
+               "only in the parent setter; any other store of a parent has no unlink and leaves the task reachable from two trees", floor=1)
+    ctx.guarded(o, lambda o: reparent_unlinks(ctx, o))
+
+    o = ctx.ob('enumeration_is_live', 'R8',
+               "X.tasks / all_children are computed from the current child lists on every call (a remembered flat list would keep listing "
+               "removed tasks that report no owner)", floor=1)
+    ctx.guarded(o, lambda o: live_enumeration(ctx, o))
+
+    o = ctx.ob('list_ops_keep_members', 'R8',
+               "the in-place operations of the children list (sort) replace the list by a permutation of itself: no task drops out of the "
+               "list without being detached", floor=1)
+    ctx.guarded(o, lambda o: list_ops(ctx, o))
 
     o = ctx.ob('removal_paths_delegate', 'R8',
                "list removal, remove_all, WBS.remove / remove_all and roots assignment all end in a children assignment on the owning task", floor=4)
@@ -186,7 +205,11 @@ def recursion(ctx, o):
                     fo = n
             if fo is None:
                 continue
-            it_ok = match(f"{s}.children", fo.iter) or match(f"{s}._Task__children", fo.iter)
+            itx = Expander(prog, f, ctx.typer, inline=False).expand(fo.iter, cfg.node_of(fo))
+            m_copy = match("list($x)", itx) or match("$x.copy()", itx) or match("$x[:]", itx) or match("tuple($x)", itx)
+            if m_copy is not None:
+                itx = m_copy['x']
+            it_ok = match(f"{s}.children", itx) or match(f"{s}._Task__children", itx)
             tgt_ok = isinstance(fo.target, ast.Name) and isinstance(c.func.value, ast.Name) and c.func.value.id == fo.target.id
             inner = [t for t in cfg.conditions(cfg.node_containing(c)) if cfg.dominates(cfg.node_of(fo), cfg.node_containing(t[0]) or cfg.entry)]
             if it_ok and tgt_ok and not inner:
@@ -374,6 +397,148 @@ def owner_guards(ctx, o, eff):
               AND(N(A('wbsnone(self)')), N(A('wbsnone(elem)')), A('wbsneq(elem,self)')), writes, eff, True, mode_filter=_reaches_under)
 
 
+def reparent_unlinks(ctx, o):
+    prog = ctx.prog
+    # private helpers that only the parent setter uses are part of it (the unlink obligation looks at the setter)
+    ps = prog.func(SETTERS['parent'])
+    setter_helpers = [g for g in _closure(ctx, ps) if g is not ps and g.cls == 'Task' and _only_called_from(ctx, g, [ps] + _closure(ctx, ps))]
+    for f in prog.all_funcs():
+        if f.module.name != 'task' or isinstance(f.node, ast.Lambda) or f.qual == 'task.Task.__init__':
+            continue
+        for st, tgt, val in facts.attr_stores(f, '_Task__parent'):
+            if isinstance(val, ast.Constant) and val.value is None:
+                continue
+            if f.qual == SETTERS['parent'] or f in setter_helpers:
+                o.site(f, st, "parent store in the parent setter (its unlink is obligation unlink_and_reroot)")
+                continue
+            recv = tgt.value
+            cfg = cfg_of(f)
+            stn = cfg.node_of(st)
+            ok = False
+            for c in facts.calls_named(f, 'remove'):
+                m = match("$r._Task__parent._Task__children.remove($r)", c)
+                if m is None or not same(m['r'], recv):
+                    continue
+                cn = cfg.node_containing(c)
+                if cn is None or cfg.can_reach(stn, cn) and not cfg.enclosing_fors(stn):
+                    continue
+                if cfg.dominates(cn, stn):
+                    ok = True
+                    continue
+                conds = cfg.conditions(cn)
+                tn = cfg.node_containing(conds[-1][0]) if conds else None
+                if tn is not None and cfg.dominates(tn, stn):
+                    ok = True
+            conds = facts.node_conditions(prog, f, st, ctx.typer, expand=True)
+            if any(facts.cond_is(t, q, "$x._Task__parent is None", True) is not None and same(facts.norm_cond(t, q)[0].left.value, recv)
+                   for t, q in conds):
+                ok = True
+            if ok:
+                o.site(f, st, f"{f.name}: `{src(st)[:40]}` after unlinking from the old parent")
+            else:
+                o.refute(f, st, st, f"`{src(st)[:50]}` in {f.name} gives the task a new parent without unlinking it from the child list of its "
+                                    f"previous parent (only the parent setter does that): the task stays reachable from the old tree, "
+                                    f"whose later _attach re-labels it while it is still a member here")
+
+
+def live_enumeration(ctx, o):
+    from . import c05_util
+    prog = ctx.prog
+    if c05_util.flat_list_cache(ctx, o) is not None:
+        return
+    h = prog.func('task.Task.__get_all_children')
+    o.site(h, h.node, "all_children keeps nothing on the task: every call walks the current child lists")
+    g = prog.func('wbs.WBS.tasks')
+    eff = Effects(prog, ctx.typer, ctx.cg)
+    for w in eff.direct_writes(g):
+        if w.root == 'self':
+            o.refute(g, w.node, w.node, f"WBS.tasks keeps state on the WBS ({unmangle(w.field)}): a remembered flat list goes stale")
+
+
+def _perm_of_list(v):
+    """'perm' when v is recognisably a permutation / copy of the facade's whole list, ('subset', node) when it keeps only some
+    of its elements, None otherwise"""
+    if match("self._list", v) or match("self", v):
+        return 'perm'
+    if isinstance(v, ast.Call) and isinstance(v.func, ast.Name) and v.func.id in ('sorted', 'list', 'reversed', 'tuple') and v.args:
+        return _perm_of_list(v.args[0])
+    m = match("$x.copy()", v) or match("$x[::-1]", v) or match("$x[:]", v)
+    if m is not None:
+        return _perm_of_list(m['x'])
+    if isinstance(v, ast.Call) and isinstance(v.func, ast.Name) and v.func.id == 'filter' and len(v.args) == 2:
+        return ('subset', v) if _perm_of_list(v.args[1]) == 'perm' else None
+    if isinstance(v, (ast.ListComp, ast.GeneratorExp)) and len(v.generators) == 1 and isinstance(v.generators[0].target, ast.Name) and \
+            isinstance(v.elt, ast.Name) and v.elt.id == v.generators[0].target.id:
+        inner = _perm_of_list(v.generators[0].iter)
+        if inner == 'perm' and v.generators[0].ifs:
+            return ('subset', v)
+        return inner
+    if isinstance(v, ast.Subscript) and isinstance(v.slice, ast.Slice) and _perm_of_list(v.value) == 'perm':
+        return ('subset', v)
+    return None
+
+
+def list_ops(ctx, o):
+    prog = ctx.prog
+    cl = prog.cls('_ChildrenList')
+    for m in cl.methods.values():
+        if m.name == '__init__':
+            continue
+        ex = Expander(prog, m, ctx.typer, inline=False)
+        cfg = cfg_of(m)
+        for c in [n for n in walk_no_nested(m.node) if isinstance(n, ast.Call) and isinstance(n.func, ast.Attribute) and
+                  n.func.attr in ('sort', 'reverse') and match("self._list", ex.expand(n.func.value))]:
+            o.site(m, c, f"{m.name}: the shared list is reordered in place (list.{c.func.attr})")
+        for st, value, in_place in T.list_replacements(m):
+            k = _perm_of_list(ex.expand(value))
+            if k == 'perm':
+                o.site(m, st, f"{m.name}: the list is replaced by a permutation of itself")
+            elif k is not None:
+                # the left-out tasks may be put back afterwards - but only from something saved BEFORE the replacement
+                stn = cfg.node_of(st)
+                later = []
+                for n in walk_no_nested(m.node):
+                    src_e = None
+                    if isinstance(n, ast.Call) and isinstance(n.func, ast.Attribute) and n.func.attr in ('extend', 'append', 'insert') and \
+                            match("self._list", n.func.value) and n.args:
+                        src_e = n.args[-1]
+                    elif isinstance(n, ast.AugAssign) and match("self._list", n.target):
+                        src_e = n.value
+                    if src_e is not None and cfg.node_containing(n) is not None and cfg.can_reach(stn, cfg.node_containing(n)):
+                        later.append((n, src_e))
+                live = [(n, e) for n, e in later if any(match("self._list", x) or match("self._ChildrenList__parent.children", x) or
+                                                         match("self._ChildrenList__parent._Task__children", x) or
+                                                         (isinstance(x, ast.Name) and x.id == 'self' and not _is_attr_base(e, x))
+                                                         for x in ast.walk(e))]
+                if live:
+                    o.refute(m, st, st, f"{m.name} overwrites the shared list with only some of its tasks (`{src(k[1])[:50]}`) and then re-adds "
+                                        f"the others from `{src(live[0][1])[:50]}`, which reads the list that was just overwritten: those tasks "
+                                        f"drop out of the children list (and of X.tasks) while still reporting the WBS as owner")
+                elif not later:
+                    o.refute(m, st, st, f"{m.name} replaces the shared list by only some of its tasks (`{src(k[1])[:50]}`): the others drop out of "
+                                        f"the children list without being detached")
+                else:
+                    o.undecided(m, st, st, f"{m.name} replaces the list by a subset and extends it afterwards; cannot tell that all tasks are kept")
+
+
+def _is_attr_base(root, name_node) -> bool:
+    """name_node occurs in root only as the base of an attribute access (self.x), not as a value of its own"""
+    for n in ast.walk(root):
+        if isinstance(n, ast.Attribute) and n.value is name_node:
+            return True
+    return False
+
+
+def _only_called_from(ctx, g, allowed) -> bool:
+    for f in ctx.prog.all_funcs():
+        if f in allowed or isinstance(f.node, ast.Lambda):
+            continue
+        for ci in ctx.cg.calls_in(f):
+            if g in [t for t in ci.targets if t is not None]:
+                return False
+    return True
+
+
 def _closure(ctx, f, depth=4):
     """f and the private helpers it (transitively) calls, nearest first (public API such as property setters is not a helper)"""
     out, todo = [f], [(f, 0)]
@@ -428,8 +593,9 @@ def removal_paths(ctx, o):
 
     def children_store(recv_pat):
         def find(g):
+            gx = Expander(prog, g, ctx.typer, inline=False)
             for st, tgt, val in facts.attr_stores(g, 'children'):
-                if g.cls == f.cls and match(recv_pat, tgt.value):
+                if g.cls == f.cls and (match(recv_pat, tgt.value) or match(recv_pat, gx.expand(tgt.value))):
                     return st
                 if g.cls != f.cls or g is not f and g.self_name and isinstance(tgt.value, ast.Name):
                     return st
